@@ -83,3 +83,25 @@ prop("C17", level="proof", bounded=[],
                  "has_failed(), in run order; file writing / feed-back are bounded",
      notes=["link 'a failed scenario makes its feature failed-class' is assumed here and proved under C03 "
             "(with the dry-run known findings KF-C03-2*)"])
+
+# -- end of run: the rerun file is written iff something failed; a stale file of an earlier run is removed otherwise ---------
+from pyvc.contracts import ghost
+ghost("rr_written", "bool")
+ghost("rr_removed", "bool")
+oracle("file_exists", ["val"], "bool")
+contract("abs:RerunFormatter.report_scenario_failures", trusted=True, params={"self": "ref:RerunFormatter"}, pos_params=["self"],
+         modifies=["G_rr_written"], ensures={"written": "G_rr_written == True"}, doc="writes the rerun file content (text: bounded)")
+contract("abs:RerunFormatter.open", trusted=True, params={"self": "ref:RerunFormatter"}, pos_params=["self"], pure=True, result="any")
+contract("abs:RerunFormatter.close_stream", trusted=True, params={"self": "ref:RerunFormatter"}, pos_params=["self"], pure=True)
+contract("lib:os.path.exists", trusted=True, pos_params=["path"], pure=True, result="bool", ensures={"value": "result == file_exists(path)"})
+contract("lib:os.remove", trusted=True, pos_params=["path"], modifies=["G_rr_removed"], ensures={"removed": "G_rr_removed == True"})
+shape("StreamOpener", name="any")
+shape("RerunFormatter", stream_opener="ref:StreamOpener")
+contract(F + "RerunFormatter.close", props=P, params={"self": "ref:RerunFormatter"}, self_classes=["RerunFormatter"],
+         modifies=["G_rr_written", "G_rr_removed", "self.stream"],
+         ensures={"written-iff-some-scenario-is-listed":
+                  "G_rr_written == (old(G_rr_written) or len(self.failed_scenarios) > 0)",
+                  "stale-file-removed-when-nothing-failed":
+                  "implies(len(self.failed_scenarios) == 0 and truthy(self.stream_opener.name) and file_exists(self.stream_opener.name), "
+                  "G_rr_removed == True)",
+                  "never-removed-when-something-failed": "implies(len(self.failed_scenarios) > 0, G_rr_removed == old(G_rr_removed))"})
